@@ -38,6 +38,16 @@ pub type Scalar = Ed448Scalar;
 
 impl Point {
 
+    /// Verification hook (read-only): wrap an edwards448 point (which
+    /// MUST be in the subgroup of order 2*L, i.e. the double of a curve
+    /// point) as a decaf448 element.
+    #[cfg(feature = "verif_hooks")]
+    pub fn verif_from_inner(P: Ed448Point) -> Self { Self(P) }
+
+    /// Verification hook (read-only): get the internal representative.
+    #[cfg(feature = "verif_hooks")]
+    pub fn verif_inner(self) -> Ed448Point { self.0 }
+
     /// The neutral element (identity point) in the group.
     pub const NEUTRAL: Self = Self(Ed448Point::NEUTRAL);
 
